@@ -27,12 +27,12 @@ def cases(chk):
                 if n == 4 and not thorough and rng.random() < 0.7:
                     continue
                 cs.append({"kind": "empirical", "obs": [list(o) for o in obs], "sizes": [2, 3][:T]})
-    for i in range(300 if thorough else 40):
+    for i in range(3000 if thorough else 40):
         T = rng.choice([1, 2, 3, 4])
         cs.append({"kind": "empirical", "obs": [[rng.randrange(4) for _ in range(T)] for _ in range(rng.randrange(1, 200))],
                    "sizes": [2, 3, 4, 5][:T]})
     # function: integer tables on closed boxes with <= 12 cells
-    for i in range(600 if thorough else 150):
+    for i in range(6000 if thorough else 150):
         T = rng.choice([1, 2, 2, 3])
         bounds = []
         for _ in range(T):
@@ -42,7 +42,7 @@ def cases(chk):
         cs.append({"kind": "function", "bounds": bounds, "cells": [[list(k), rng.randrange(0, 4)] for k in box],
                    "D": rng.choice([1, 7, 10]), "sizes": [2, 3, 4][:T]})
     # marginal: integer tables F_i : 0..4 -> 0..3, bounds inside 0..4
-    for i in range(900 if thorough else 200):
+    for i in range(9000 if thorough else 200):
         T = rng.choice([1, 2, 2, 3])
         F, bounds = [], []
         for _ in range(T):
